@@ -53,6 +53,8 @@ class _OffsetParseBucket(_ParseBucket[Offset]):
         )
         if self._is_negative:
             seconds = -seconds
+        if seconds < -18 * PyodaConstants.SECONDS_PER_HOUR or seconds > 18 * PyodaConstants.SECONDS_PER_HOUR:
+            return ParseResult[Offset]._field_value_out_of_range_post_parse(value, self._hours, "H", Offset)
         return ParseResult[Offset].for_value(Offset.from_seconds(seconds))
 
 
